@@ -33,7 +33,7 @@ RULE = ('family = one store (new / from_dict / from_list with immutable_warranty
 PROBES = ['iterator_kept_open', 'slice_dataset_kept', 'two_client_threads', 'mutated_then_reread_same_path', 'mutated_then_reread_other_path',
           'original_container_mutated', 'read_by_prefetch_worker',
           'first_access_object_mutated', 'cached_access_object_mutated',
-          'original_container_grew_or_shrank', 'empty_container_refused', 'dataset_from_json_file']
+          'constructed_through_another_entry_point', 'original_container_grew_or_shrank', 'empty_container_refused', 'dataset_from_json_file']
 BUDGET = {
     'quick': {'families': 7000, 'wall_cap': 420, 'shrink_s': 12},
     'thorough': {'families': 70000, 'wall_cap': 5400, 'shrink_s': 30},
@@ -133,6 +133,8 @@ def gen(rng, tier, index):
             else:
                 ops.append(['mutate', rng.choice(MUTS), rng.randrange(0, 4)])
         cases.append({'store': store, 'n': n, 'kind': kind, 'shape': shape, 'ops': ops})
+        if store in ('new_pickle', 'new_copy', 'new_wu') and rng.random() < 0.4:
+            cases[-1]['entry'] = rng.choice(['direct', 'tuple', 'from_dataset'])
     return cases
 
 
@@ -224,7 +226,20 @@ def run(case):
                                         violations=[], fired={'store_' + store: 1}, probes=probes,
                                         stats={'ops': 0}, sample={'case': case}, digest_extra=None)
             elif store.startswith('new_'):
-                ds = lazy_dataset.new(orig, immutable_warranty=store[4:])
+                entry = case.get('entry', 'new')
+                if entry == 'direct':
+                    # the constructors new() dispatches to, called directly
+                    ds = (lazy_dataset.from_dict if kind == 'dict' else lazy_dataset.from_list)(
+                        orig, immutable_warranty=store[4:])
+                elif entry == 'tuple' and kind != 'dict':
+                    ds = lazy_dataset.new(tuple(orig), immutable_warranty=store[4:])
+                elif entry == 'from_dataset':
+                    # a dataset materialised from another dataset
+                    ds = lazy_dataset.new(lazy_dataset.new(orig), immutable_warranty=store[4:])
+                else:
+                    ds = lazy_dataset.new(orig, immutable_warranty=store[4:])
+                if entry != 'new':
+                    probes['constructed_through_another_entry_point'] = 1
             else:
                 base = lazy_dataset.new(orig)
                 if store in ('cache', 'cache_tuple'):
